@@ -171,18 +171,35 @@ def argclass(args):
     return '+'.join(sorted(cls)) or 'plain'
 
 
+class Label(str):
+    """A str subclass whose str()/repr()/format() are not its value (the `class Mode(str, Enum)` idiom, markup-safe
+    strings, path-like str subclasses): the argument is the string VALUE."""
+
+    def __str__(self):
+        return 'Label.' + str.upper(self)[:4]
+
+    __repr__ = __str__
+
+    def __format__(self, spec):
+        return 'Label.' + str.upper(self)[:4]
+
+
+def as_given(c, args):
+    return [Label(a) for a in args] if c.get('strsub') else args
+
+
 def check_sh(c, st):
     su = common.load('strutils')
     lists = c['lists']
     lines = []
     for args in lists:
-        got = outcome(lambda: su.args2sh(args))
+        got = outcome(lambda: su.args2sh(as_given(c, args)))
         if got[0] != 'ok':
             return ('args2sh-raised:' + got[1], 'args2sh(%r) raised %s' % (args, got[1]))
         if '\0' in got[1]:
             return ('args2sh-nul', 'NUL in output')
         lines.append(got[1])
-        alt = outcome(lambda: su.escape_shell_args(args, style='sh'))
+        alt = outcome(lambda: su.escape_shell_args(as_given(c, args), style='sh'))
         if alt != got:
             return ('escape_shell_args-differs', 'escape_shell_args(%r, style=sh) = %r vs args2sh %r' % (args, alt, got))
     for i, (args, line) in enumerate(zip(lists, lines)):
@@ -223,10 +240,10 @@ def check_cmd(c, st):
     su = common.load('strutils')
     for args in c['lists']:
         st.monitor_evals += 1
-        got = outcome(lambda: su.args2cmd(args))
+        got = outcome(lambda: su.args2cmd(as_given(c, args)))
         if got[0] != 'ok':
             return ('args2cmd-raised:' + got[1], 'args2cmd(%r) raised %s' % (args, got[1]))
-        if outcome(lambda: su.escape_shell_args(args, style='cmd')) != got:
+        if outcome(lambda: su.escape_shell_args(as_given(c, args), style='cmd')) != got:
             return ('escape_shell_args-differs', 'style=cmd differs from args2cmd for %r' % (args,))
         back = crt_split('prog.exe ' + got[1])[1:] if True else None
         if back != list(args):
@@ -273,6 +290,15 @@ def check_ints(c, st):
     prob = canonical_problem(f[1])
     if prob:
         return ('int-list-not-canonical', 'format_int_list(%r) = %r: %s' % (L, f[1], prob))
+    # the caller does what it likes with a returned list; the same text parsed again gives the same answer
+    if isinstance(p[1], list):
+        p[1].reverse()
+        p[1].append(-7)
+        del p[1][:1]
+    p2 = outcome(lambda: su.parse_int_list(f[1]))
+    if p2 != ('ok', want):
+        return ('int-list-result-shared', 'parse_int_list(%r) after the caller edited the list returned by an earlier call: %r, '
+                'want %r' % (f[1], p2, want))
     rt = outcome(lambda: su.int_ranges_from_int_list(f[1]))
     ranges = []
     for x in want:
@@ -372,9 +398,9 @@ def rlist(r):
 def gen(r):
     x = r.random()
     if x < 0.25:
-        return {'kind': 'sh', 'lists': [rlist(r) for _ in range(60)]}
+        return {'kind': 'sh', 'lists': [rlist(r) for _ in range(60)], 'strsub': r.random() < 0.25}
     if x < 0.5:
-        return {'kind': 'cmd', 'lists': [rlist(r) for _ in range(60)]}
+        return {'kind': 'cmd', 'lists': [rlist(r) for _ in range(60)], 'strsub': r.random() < 0.25}
     if x < 0.93:
         style = r.random()
         if style < 0.4:
@@ -392,6 +418,13 @@ def gen(r):
             windows = [[0, None], [r.randint(0, 5), None]]
             windows += [[0, mx + r.randint(0, 8)], [max(0, mn - 3), mx + 2], [mx + 1, mx + 5], [r.randint(0, mx + 1), r.randint(0, mx + 3)],
                         [3, 3], [5, 2]]
+        if mx < 5000 and r.random() < 0.3:
+            # wide windows (tens of thousands of integers) whose edges sit on, just before and just after listed values
+            edges = [mn, mn + 1, max(0, mn - 1), 0] + L[:2]
+            for _ in range(2):
+                a = r.choice(edges)
+                windows.append([a, a + r.choice([16383, 16384, 16385, 20000, 50000, 100000])])
+            windows.append([0, r.choice([16384, 16385, 65536, 100001])])
         return {'kind': 'ints', 'ints': L, 'windows': windows}
     return {'kind': 'gzip', 'size': r.choice([0, 1, 2, 100, 4096, 65535, 65536, r.randint(0, 70000)]),
             'style': r.choice(['random', 'text', 'run']), 'seed': r.randint(0, 10 ** 6),
